@@ -150,8 +150,9 @@ def _cases(group):
     else:
         ys = _y_catalogue(len(X), group["tier"])
         inits = list(range(N)) + ["random"] if not big else [0, N - 1, "random"]
+        mixes = MIXINGS if not (group["tier"] == "quick" and group["label"].startswith("L")) else [0.0, 0.5, 0.99]
         for y in ys:
-            for mixing in MIXINGS:
+            for mixing in mixes:
                 for init in inits:
                     ns = range(1, N + 1) if not big else sorted({1, N // 2, N})
                     for n in ns:
